@@ -667,63 +667,92 @@ def F_rules(ctx, rule="F"):
                   "the RESULT receiver is drained only after the join of queuer and scheduler completed (every started future has finished)",
                   "the RESULT receiver is polled before / without the join having completed")
         # Err iff results non-empty, carrying the collected vector unchanged
-        okret = False
-        why = "no is_empty() test on the collected errors"
-        for bb, t in par.calls():
-            if (callee_path(t) or "").endswith("::is_empty"):
-                vsrc = fl.sources_operand(par, t["args"][0])
-                is_coll = any(x.kind == "alloc" and "collect" in x[4] for x in vsrc)
-                if not is_coll:
-                    # a vector filled by pushing every item received from the RESULT channel
-                    for pbb, pt in par.calls():
-                        if (callee_path(pt) or "").endswith("Vec::<T, A>::push") and set(fl.sources_operand(par, pt["args"][0])) & set(vsrc):
-                            isrc = fl.sources_operand(par, pt["args"][1])
-                            roles_, other_ = m.roles_of_sources(isrc, half=1)
-                            if roles_ == {"RESULT"} and not other_ and all("$item" in x[3] for x in isrc):
-                                lr = loop_region(ctx, par, pbb)
-                                is_coll = lr is not None and not lr["early_exits"] and not [g for g in cond_guards(par, pbb) if g[0] in lr["blocks"] and g[0] != lr.get("switch_bb")
-                                                                                            and (par.blocks[g[0]]["term"].get("sp") or {}).get("desugar") != "Await"]
-                # Ok on true arm, Err on false arm
-                oks = errs = None
-                ok_unguarded = False
-                for kind, dbb, si, x in get_defs(par).of(0):
-                    if kind == "stmt" and x["rv"]["k"] == "agg" and x["rv"].get("def") == "std::result::Result":
-                        gs = []
-                        for sb, vals in guards_of(par, dbb):
-                            ge = strip_refs(switch_expr(par, sb))
-                            neg = False
-                            while ge.kind == "unop" and ge[1] == "Not":
-                                neg = not neg
-                                ge = strip_refs(ge[2])
-                            if ge.kind == "call" and len(ge) > 3 and ge[3] == bb:
-                                if neg:
-                                    vals = frozenset(("otherwise" if v == "0" else "0") for v in vals)
-                                gs.append((sb, vals))
-                        if not gs and x["rv"]["variant"] == "Ok":
-                            ok_unguarded = True        # an `Ok(..)` returned without looking at the collected errors
-                        if gs:
-                            taken_true = "otherwise" in gs[0][1] and "0" not in gs[0][1]
-                            if x["rv"]["variant"] == "Ok":
-                                oks = taken_true if oks is not False else False
-                            else:
-                                errs = not taken_true
-                                # payload .1 is the collected vector
-                                esrc = fl.sources_local(par, 0, ("E", 1))
-                                errs = errs and bool(esrc) and set(esrc) == set(vsrc)
-                # nothing rewrites the collected vector between the drain and the return
-                for mbb, mt in par.calls():
-                    mp = callee_path(mt) or ""
-                    if mp.endswith("Vec::<T, A>::push") or mp in ("std::ops::Deref::deref", "std::ops::DerefMut::deref_mut"):
-                        continue
-                    for a_ in mt["args"]:
-                        if a_["k"] != "const" and a_["pl"]["ty"].startswith(("&mut std::vec::Vec<", "&mut [")) and \
-                                set(fl.sources_operand(par, a_)) & set(vsrc):
-                            is_coll = False
-                            why = "the collected errors are modified by %s before being returned" % mp
-                okret = bool(is_coll and oks and errs and not ok_unguarded)
-                if is_coll or not str(why).startswith("the collected errors are modified"):
-                    why = "Ok when empty: %s, Err((outcome, results)) with the collected vector otherwise: %s%s" % (
-                        oks, errs, "; an Ok(..) is also returned on a path that never looks at the collected errors" if ok_unguarded else "")
+        def err_iff_nonempty(par, helper=None):
+            """(ok, why) for the body `par`; with `helper` = (is_coll of the draining helper, sources of its vector) the emptiness test
+            and the Ok/Err pair are looked for in `par`, a caller of that helper"""
+            okret = False
+            why = "no is_empty() test on the collected errors"
+            for bb, t in par.calls():
+                if (callee_path(t) or "").endswith("::is_empty"):
+                    vsrc = fl.sources_operand(par, t["args"][0])
+                    is_coll = any(x.kind == "alloc" and "collect" in x[4] for x in vsrc)
+                    if helper is not None:
+                        is_coll = bool(helper[0]) and bool(set(vsrc) & set(helper[1]))
+                    elif not is_coll:
+                        # a vector filled by pushing every item received from the RESULT channel
+                        for pbb, pt in par.calls():
+                            if (callee_path(pt) or "").endswith("Vec::<T, A>::push") and set(fl.sources_operand(par, pt["args"][0])) & set(vsrc):
+                                isrc = fl.sources_operand(par, pt["args"][1])
+                                roles_, other_ = m.roles_of_sources(isrc, half=1)
+                                if roles_ == {"RESULT"} and not other_ and all("$item" in x[3] for x in isrc):
+                                    lr = loop_region(ctx, par, pbb)
+                                    is_coll = lr is not None and not lr["early_exits"] and not [g for g in cond_guards(par, pbb) if g[0] in lr["blocks"] and g[0] != lr.get("switch_bb")
+                                                                                                and (par.blocks[g[0]]["term"].get("sp") or {}).get("desugar") != "Await"]
+                    # Ok on true arm, Err on false arm
+                    oks = errs = None
+                    ok_unguarded = False
+                    for kind, dbb, si, x in get_defs(par).of(0):
+                        if kind == "stmt" and x["rv"]["k"] == "agg" and x["rv"].get("def") == "std::result::Result":
+                            gs = []
+                            for sb, vals in guards_of(par, dbb):
+                                ge = strip_refs(switch_expr(par, sb))
+                                neg = False
+                                while ge.kind == "unop" and ge[1] == "Not":
+                                    neg = not neg
+                                    ge = strip_refs(ge[2])
+                                if ge.kind == "call" and len(ge) > 3 and ge[3] == bb:
+                                    if neg:
+                                        vals = frozenset(("otherwise" if v == "0" else "0") for v in vals)
+                                    gs.append((sb, vals))
+                            if not gs and x["rv"]["variant"] == "Ok":
+                                ok_unguarded = True        # an `Ok(..)` returned without looking at the collected errors
+                            if gs:
+                                taken_true = "otherwise" in gs[0][1] and "0" not in gs[0][1]
+                                if x["rv"]["variant"] == "Ok":
+                                    oks = taken_true if oks is not False else False
+                                else:
+                                    errs = not taken_true
+                                    # payload .1 is the collected vector
+                                    esrc = fl.sources_local(par, 0, ("E", 1))
+                                    errs = errs and bool(esrc) and set(esrc) == set(vsrc)
+                    # nothing rewrites the collected vector between the drain and the return
+                    for mbb, mt in par.calls():
+                        mp = callee_path(mt) or ""
+                        if mp.endswith("Vec::<T, A>::push") or mp in ("std::ops::Deref::deref", "std::ops::DerefMut::deref_mut"):
+                            continue
+                        for a_ in mt["args"]:
+                            if a_["k"] != "const" and a_["pl"]["ty"].startswith(("&mut std::vec::Vec<", "&mut [")) and \
+                                    set(fl.sources_operand(par, a_)) & set(vsrc):
+                                is_coll = False
+                                why = "the collected errors are modified by %s before being returned" % mp
+                    okret = bool(is_coll and oks and errs and not ok_unguarded)
+                    if is_coll or not str(why).startswith("the collected errors are modified"):
+                        why = "Ok when empty: %s, Err((outcome, results)) with the collected vector otherwise: %s%s" % (
+                            oks, errs, "; an Ok(..) is also returned on a path that never looks at the collected errors" if ok_unguarded else "")
+            return okret, why
+
+        okret, why = err_iff_nonempty(par)
+        if not okret and par.kind == "coroutine" and par.parent in fb.bodies and not (fb.fns.get(par.parent) or {}).get("public") and \
+                "std::vec::Vec<" in ((fb.fns.get(par.parent) or {}).get("output") or {}).get("s", ""):
+            # the drain lives in a private async helper that returns the vector itself (`fn_errors_collect(rx) -> Vec<E>`): the
+            # vector is every received error (checked in the helper), the emptiness test and the Ok / Err pair are its callers'
+            hv = fl.sources_local(par, 0, ())
+            h_coll = False
+            for pbb, pt in par.calls():
+                if (callee_path(pt) or "").endswith("Vec::<T, A>::push") and set(fl.sources_operand(par, pt["args"][0])) & set(hv):
+                    isrc = fl.sources_operand(par, pt["args"][1])
+                    roles_, other_ = m.roles_of_sources(isrc, half=1)
+                    if roles_ == {"RESULT"} and not other_ and all("$item" in x[3] for x in isrc):
+                        lr = loop_region(ctx, par, pbb)
+                        h_coll = lr is not None and not lr["early_exits"] and not [g for g in cond_guards(par, pbb) if g[0] in lr["blocks"] and g[0] != lr.get("switch_bb")
+                                                                                     and (par.blocks[g[0]]["term"].get("sp") or {}).get("desugar") != "Await"]
+            if any(x.kind == "alloc" and "collect" in x[4] for x in hv):
+                h_coll = True
+            callers = [cb_ for (cb_, cbb_, ct_) in fl.call_sites().get(par.parent, []) if not fb.is_test_body(cb_)]
+            if h_coll and callers:
+                res_ = [err_iff_nonempty(cb_, (h_coll, hv)) for cb_ in callers]
+                okret = all(r_[0] for r_ in res_)
+                why = "; ".join(r_[1] for r_ in res_ if not r_[0]) or why
         ctx.check(okret, rule + "3", "err-iff-nonempty|%s" % key, m.where(par),
                   "the call returns Err((outcome, errors)) iff the collected error vector is non-empty, carrying it unchanged", why)
     # F5: try-fold
@@ -870,6 +899,13 @@ def track_fn(ctx):
                 break
     if len(own) == 1:
         return own[0]
+    if len(own) > 1:
+        # one arm of the tracking function split off into a private function of its own: the tracking function is the one
+        # that reaches the others
+        m = ctx.model
+        tops = [f for f in own if all(g["id"] == f["id"] or g["id"] in m.reach(f["id"]) for g in own)]
+        if len(tops) == 1:
+            return tops[0]
     return cands[0] if len(cands) == 1 else None
 
 
@@ -1307,6 +1343,50 @@ def O_rules(ctx, rule="O"):
                         ok2 = g_ok and h_ok and some_arm is False and none_arm is True
                         why = "structure is the parameter: %s; haystack is fn_ids_processed: %s; Some on not-contained: %s; None on contained: %s" % (
                             g_ok, h_ok, some_arm is False, none_arm is True)
+        if not ok2 and not (npe.kind == "call" and npe[1] == "std::iter::Iterator::collect"):
+            # loop form: `let mut out = Vec::new(); for id in <all nodes> { if !processed.contains(&id) { out.push(id) } } out`
+            from rules_sched import ranges_all_nodes
+            from rules_build import loop_item_path
+            rsrc_ = fl.sources_local(newb, 0, ()) if newb is not newb0 else fl.sources_operand(newb0, ops[fields.index("fn_ids_not_processed")])
+            news_ = [x for x in rsrc_ if x.kind == "alloc" and x[1] == newb.id and x[4].split("::")[-1] in ("new", "with_capacity")]
+            pushes_ = [(pbb, pt) for pbb, pt in newb.calls() if (callee_path(pt) or "").endswith("Vec::<T, A>::push") and
+                       set(fl.sources_operand(newb, pt["args"][0])) & set(rsrc_)]
+            if len(news_) == 1 and len(rsrc_) == 1 and len(pushes_) == 1:
+                pbb, pt = pushes_[0]
+                lr = loop_region(ctx, newb, pbb)
+                if lr is not None and not lr["early_exits"] and lr.get("iter_expr") is not None:
+                    chain = iterator_chain(ctx, newb, lr["iter_expr"])
+                    names = [c[0] for c in chain]
+                    all_nodes = (ranges_all_nodes(chain) or bool([c for c in chain if c[0] in ALL_NODE_SOURCES])) and \
+                        not [n for n in names if n in SELECTIVE_ITER or n == "std::iter::Iterator::rev"]
+                    gsrc_ok = True
+                    for c in chain:
+                        for x in walk_expr(c[2]):
+                            if x.kind == "call" and x[1] in set(NODE_COUNT_FNS) | set(ALL_NODE_SOURCES) and x[2]:
+                                ge_ = strip_refs(x[2][0])
+                                while ge_.kind == "call" and (ge_[1].endswith("Dag::<N, E, Ix>::graph") or ge_[1] == "std::ops::Deref::deref") and ge_[2]:
+                                    ge_ = strip_refs(ge_[2][0])
+                                gsrc_ok = gsrc_ok and ge_ == E(("arg", p_graph))
+                    ip = loop_item_path(strip_refs(expr_operand(newb, pt["args"][1])))
+                    item_ok = ip is not None and ip[0] == lr["next_bb"]
+                    gl = [(sb, de, vals) for sb, de, vals in cond_guards(newb, pbb) if sb in lr["blocks"] and sb != lr.get("switch_bb")]
+                    g_ok2 = False
+                    if len(gl) == 1:
+                        de = strip_refs(gl[0][1])
+                        neg = False
+                        while de.kind == "unop" and de[1] == "Not":
+                            neg = not neg
+                            de = strip_refs(de[2])
+                        taken_true = "otherwise" in gl[0][2] and "0" not in gl[0][2]
+                        taken_false = "0" in gl[0][2] and "otherwise" not in gl[0][2]
+                        if de.kind == "call" and de[1].endswith("::contains") and len(de[2]) == 2:
+                            hay = strip_refs(de[2][0])
+                            hay_ok = hay == E(("arg", p_proc)) or E(("arg", p_proc)) in list(walk_expr(hay))
+                            needle = loop_item_path(strip_refs(de[2][1]))
+                            g_ok2 = hay_ok and needle is not None and needle[0] == lr["next_bb"] and ((taken_false and not neg) or (taken_true and neg))
+                    ok2 = bool(all_nodes and gsrc_ok and item_ok and g_ok2)
+                    why = "loop form: over all nodes of the structure parameter %s/%s, pushes the loop item %s, guarded exactly by `!processed.contains(item)` %s" % (
+                        all_nodes, gsrc_ok, item_ok, g_ok2)
         ctx.check(ok2, rule + "2", "complement", m.where(newb),
                   "fn_ids_not_processed is the node-order filter `!fn_ids_processed.contains(id)` over all nodes of the walked structure", why)
         newb, p_graph, p_proc = newb0, p_graph0, p_proc0
@@ -2370,6 +2450,27 @@ def G_rules(ctx, rule="G"):
         ts = [(bx, bb, t) for bx in m.reach_bodies(b.id) if bx.kind == "fn" for bb, t in bx.calls() if callee_path(t) == WALKER_ITER]
         ok4 = False
         why = "Topo::new/iter sites: %d/%d" % (len(tn), len(ts))
+        if len(tn) == 1 and not ts and tn[0][0].id == b.id:
+            # hand-driven generator: `let mut topo = Topo::new(g); iter::from_fn(move || { let id = topo.next(g)?; Some(&graph[id]) })`
+            steps = [(bx, bb, t) for bx in m.reach_bodies(b.id) if bx.kind == "closure" and bx.id.startswith(b.id + "::")
+                     for bb, t in bx.calls() if callee_path(t) == TOPO_NEXT]
+            if len(steps) == 1 and not steps[0][0].back_edges():
+                C_, sbb_, st_ = steps[0]
+                us_ = fl.closure_uses(C_)
+                same_topo = set(fl.sources_operand(C_, st_["args"][0])) & {x for x in fl.sources_local(b, tn[0][2]["dest"]["l"], ())} or \
+                    any(x.kind == "alloc" and x[1] == b.id and x[2] == tn[0][1] for x in fl.sources_operand(C_, st_["args"][0]))
+                if len(us_) == 1 and (callee_path(us_[0][2]) or "").endswith("iter::from_fn") and same_topo and not cond_guards(C_, sbb_):
+                    e1 = strip_refs(expr_operand(b, tn[0][2]["args"][0]))
+                    e2 = strip_refs(expr_operand(C_, st_["args"][1]))
+                    is_rev1 = e1.kind == "agg" and (e1[2] or "").endswith("visit::Reversed")
+                    is_rev2 = e2.kind == "agg" and (e2[2] or "").endswith("visit::Reversed")
+                    s1 = sources_of_expr(ctx, b, e1[4][0] if is_rev1 else e1)
+                    s2 = sources_of_expr(ctx, C_, e2[4][0] if is_rev2 else e2)
+                    plain = all(x.kind in ("field", "deref", "ref", "arg") for x in walk_expr(strip_refs(e1[4][0]) if is_rev1 else e1)) and \
+                        all(x.kind == "param" and x[1] == b.id and x[2] == 1 for x in s1)
+                    ok4 = is_rev1 == rev and is_rev2 == rev and s1 == s2 and bool(s1) and plain
+                    why = "Topo::new over %s, stepped (from_fn) over %s%s" % (fmt_expr(e1, b), fmt_expr(e2, C_),
+                                                                             "" if plain else "; the walked graph is not GraphInfo's own graph field but a view derived from it")
         if len(tn) == 1 and len(ts) == 1:
             from rules_build import lift_expr
             e1, f1 = lift_expr(ctx, b, tn[0][0], strip_refs(expr_operand(tn[0][0], tn[0][2]["args"][0])))
@@ -2417,8 +2518,8 @@ def G_rules(ctx, rule="G"):
                     attrs.add("target")
                 if p.endswith("EdgeRef::weight") or ("EdgeReference::" in p and p.endswith("::weight")):
                     attrs.add("edge-weight")
-                if p.endswith("::node_weights"):
-                    attrs.add("node-weight")
+                if p.endswith("::node_weights") or p.endswith("IntoNodeReferences::node_references"):
+                    attrs.add("node-weight")        # (index, &weight) pairs: comparing them compares the weights (and positions)
             for bb, si, s in bx.stmts():
                 if s["k"] == "assign" and s["rv"]["k"] == "ref":
                     ty = s["rv"]["pl"]["ty"]
